@@ -38,8 +38,11 @@ def rand_value(rng):
     n = rng.choice((0, 1, 2, 5, 12, rng.randrange(0, 60)))
     out = []
     for _ in range(n):
-        r = rng.randrange(8)
-        if r < 3:
+        r = rng.randrange(9)
+        if r == 8:
+            # space separators and other non-ASCII blanks are ordinary printable characters of a parameter value
+            out.append(rng.choice("\u00a0\u3000\u2003\u2009\u202f\u205f\u1680\u2028\u2029\u200b\ufeff"))
+        elif r < 3:
             out.append(rng.choice(ALPHABET))
         elif r < 5:
             c = chr(rng.randrange(0x21, 0x7F))
@@ -67,6 +70,13 @@ def run(ctx):
                 for p in (PATHS if path is None else (path,)):
                     ctx.check((p, (("CN", sh),)), "alphabet", enum=True)
             i += 1
+    for ch in "\u00a0\u3000\u2000\u2001\u2002\u2003\u2004\u2005\u2006\u2007\u2008\u2009\u200a\u202f\u205f\u1680\u2028\u2029\u200b\ufeff\u00ad":
+        for sval in ("x" + ch + "y", ch, ch + ch, "a, " + ch):
+            for sh in shapes(sval):
+                if ctx.mine(i):
+                    for pth in PATHS:
+                        ctx.check((pth, (("CN", sh),)), "unicode-blanks", enum=True)
+                i += 1
     ctx.exhaustive[f"alphabet<= {L} x shapes" + (" (length-3 strings rotate over the three paths)" if ctx.quick else " x paths")] = True
     rng = ctx.rng
     while ctx.time_left():
